@@ -225,6 +225,15 @@ def run_case(ctx, case):
     sig = sig_of(info)
     ctx.check("no_exception", True)
     exp = info["expect"]
+    # the first thing a script reads may be the latitudes, the longitudes or the connectivity: all of them are then
+    # judged below (positions, ranges) whatever came first
+    first = [["node_lon", "node_lat"], ["node_lat", "node_lon"], ["face_node_connectivity", "node_lat", "node_lon"]][int(rng.integers(0, 3))]
+    try:
+        for nm in first:
+            np.asarray(getattr(g, nm).values)
+    except Exception as e:
+        ctx.check("no_exception", False, dict(sig, stage="first_read", exc=core.exc_sig(e)), {"exc": repr(e)[:300], "mesh": case["mesh"]})
+    ctx.observe("first_read_" + first[0])
     try:
         ok, why = ux.faces_match(g, exp, allow_reflection=info["reflect"])
     except Exception as e:
